@@ -171,7 +171,9 @@ impl Check for Determinism {
         );
         prop_oneof![
             1 => crate::generators::task::choices(170).prop_map(DetCase::External),
-            1 => (ga::program(&c), prop::sample::select(Transform::all())).prop_map(|(p, t)| DetCase::Translate(p, t)),
+            // up to 14 rules: a command that handled the formulas of a longer theory concurrently
+            // would have to keep their order
+            1 => (ga::program(&ga::AspCfg { max_rules: 14, ..c.clone() }), prop::sample::select(Transform::all())).prop_map(|(p, t)| DetCase::Translate(p, t)),
             1 => (ga::program(&c), ga::program(&c), flags).prop_map(|(a, b, f)| DetCase::Strong(a, b, f)),
         ]
         .boxed()
